@@ -10,6 +10,8 @@ parts, with look-behind bodies that must begin with a digit and a negative look-
 digits, either sign — in every carrier is extracted as ONE result covering the WHOLE literal:
 * `plain_literal_extracted`: es-es, es-mx, fr-fr, pt-br, de-de, nl-nl (both modes);
 * `decimal_literal_extracted`: es-es, es-mx, fr-fr, pt-br, it-it (both modes).
+Like `RTV.Props.C03Extract` these are statements about the DIGIT FAMILY of the list; the right context must not begin
+with a word that continues a literal in the full list (`PostOK.noFollower`, follower lists RTV/Gen/NumFollow.lean).
 Not of this form (kernel-evaluated on bounded instances in `RTV.Props.C03ExtractBounded`, tied by the correspondence):
 en-us (`\p{L}` alternative in the look-behind, `(?<=(?=\D)|\b)`), it-it plain integers (`(?<=\W|^)-`), the English
 DoubleDecimalPointRegex (an alternation), de-de / nl-nl decimals (`\d{1,3}(\.\d{3})*(,\d+)?`, no sign: witnesses in
@@ -54,22 +56,20 @@ theorem parts_ok (T : Tables) {lb1 : RE} {lb2 : Option RE} {nla ph : RE} (h1 : h
     PartsOK T lb1 lb2 nlaItems nla ph :=
   ⟨h1, fun b hb => by subst hb; exact h2, h3, by simp [nlaItems, clsTest, Item.test], phOK_sound h4⟩
 
-/-- the extractor lists whose entry 0 is of the plain form: es (es-es, es-mx), fr, pt, de, nl — both modes -/
-def plainExts : List Ext :=
-  [esDefaultExt, esPureExt, frDefaultExt, frPureExt, ptDefaultExt, ptPureExt, deDefaultExt, dePureExt, nlDefaultExt,
-    nlPureExt]
+/-- the configurations (`allCfgs`: extractor list, marks, follower list) whose list has entry 0 of the plain form:
+es-es, fr-fr, pt-br | es-mx, de-de, nl-nl — both modes -/
+def plainCfgs : List Cfg := (allCfgs.drop 2).take 6 ++ allCfgs.drop 10
 
-/-- `(list, decimal mark)` whose entry 9 is of the decimal form and reads that mark: es-es, es-mx, fr-fr, pt-br, it-it -/
-def decimalCfgs : List (Ext × Nat) :=
-  [(esDefaultExt, 44), (esPureExt, 44), (esDefaultExt, 46), (esPureExt, 46), (frDefaultExt, 44), (frPureExt, 44),
-    (ptDefaultExt, 44), (ptPureExt, 44), (itDefaultExt, 44), (itPureExt, 44)]
+/-- the configurations whose entry 9 is of the decimal form and reads the configuration's decimal mark `c.d`:
+es-es, fr-fr, pt-br, it-it, es-mx — both modes -/
+def decimalCfgs : List Cfg := (allCfgs.drop 2).take 10
 
-theorem plain_shapes : ∀ e ∈ plainExts,
-    plainShapeOK (entry e 0) = true ∧ (0, entry e 0) ∈ e.fam ∧ FamilyOK e.fam = true := by decide
+theorem plain_shapes : ∀ c ∈ plainCfgs,
+    plainShapeOK (entry c.ext 0) = true ∧ (0, entry c.ext 0) ∈ c.ext.fam ∧ FamilyOK c.ext.fam = true := by decide
 
 theorem decimal_shapes : ∀ c ∈ decimalCfgs,
-    decimalShapeOK (entry c.1 9) = true ∧ (9, entry c.1 9) ∈ c.1.fam ∧ FamilyOK c.1.fam = true ∧
-      (c.2 = 44 ∨ c.2 = 46) ∧ clsTest RTV.Gen.reTables (decMarksOf (entry c.1 9)) false c.2 = true := by decide +kernel
+    decimalShapeOK (entry c.ext 9) = true ∧ (9, entry c.ext 9) ∈ c.ext.fam ∧ FamilyOK c.ext.fam = true ∧
+      (c.d = 44 ∨ c.d = 46) ∧ clsTest RTV.Gen.reTables (decMarksOf (entry c.ext 9)) false c.d = true := by decide +kernel
 
 /-- the forms NOT covered here really are different regexes (so that this file's scope is a checked statement) -/
 theorem other_shapes :
@@ -96,16 +96,16 @@ theorem single_group {l : Literal} (hw : l.WellFormed) (h : l.groups.length ≤ 
   | [a] => exact ⟨a, rfl⟩
   | _ :: _ :: _ => rw [hg] at h; simp at h
 
-/-- **Plain integers** (`1234567` / `-5`, any number of digits): every list of `plainExts`, every carrier: exactly one
+/-- **Plain integers** (`1234567` / `-5`, any number of digits): every configuration of `plainCfgs`, every carrier: exactly one
 result, at the literal's position, of the literal's length.  (The text does not depend on the marks.) -/
-theorem plain_literal_extracted : ∀ e ∈ plainExts, ∀ (sp : Nat → Bool), SpaceOK sp →
+theorem plain_literal_extracted : ∀ c ∈ plainCfgs, ∀ (sp : Nat → Bool), SpaceOK sp →
     ∀ (l : Literal) (g d : Nat), l.WellFormed → (∀ grp ∈ l.groups, grp ≠ []) → l.shape = .plain →
-    ∀ (pre post : Str), PreOK RTV.Gen.reTables pre → PostOK RTV.Gen.reTables post →
-      QuietAt RTV.Gen.reTables e (pre ++ l.text g d ++ post) pre.length (l.text g d).length →
-      ∃ tag, extract RTV.Gen.reTables sp e (pre ++ l.text g d ++ post) =
+    ∀ (pre post : Str), PreOK RTV.Gen.reTables pre → PostOK RTV.Gen.reTables (folOf c.follow) post →
+      QuietAt RTV.Gen.reTables c.ext (pre ++ l.text g d ++ post) pre.length (l.text g d).length →
+      ∃ tag, extract RTV.Gen.reTables sp c.ext (pre ++ l.text g d ++ post) =
         [⟨pre.length, (l.text g d).length, strip sp (l.text g d), tag⟩] := by
-  intro e he sp hsp l g d hw hne hs pre post hpre hpost hq
-  obtain ⟨hshape, hidx, hfam⟩ := plain_shapes e he
+  intro c he sp hsp l g d hw hne hs pre post hpre hpost hq
+  obtain ⟨hshape, hidx, hfam⟩ := plain_shapes c he
   unfold plainShapeOK at hshape
   simp only [Bool.and_eq_true, beq_iff_eq] at hshape
   obtain ⟨⟨⟨⟨heq, h1⟩, h2⟩, h3⟩, h4⟩ := hshape
@@ -119,7 +119,7 @@ theorem plain_literal_extracted : ∀ e ∈ plainExts, ∀ (sp : Nat → Bool), 
   have ha : 1 ≤ a.length := by
     have := hne a (by simp [hgr])
     exact List.length_pos_iff.2 this
-  obtain ⟨tag, _, hres⟩ := extract_plainInt tables_ok sp hsp e.fam hfam (parts_ok _ h1 h2 h3 h4) hidx pre post hpre hpost
+  obtain ⟨tag, _, hres⟩ := extract_plainInt tables_ok sp hsp c.ext.fam hfam (parts_ok _ h1 h2 h3 h4) hidx pre post hpre hpost
     l.neg a ha hd _ _ hq
   exact ⟨tag, hres⟩
 
@@ -128,10 +128,10 @@ mark: every configuration of `decimalCfgs`, every carrier: exactly one result = 
 theorem decimal_literal_extracted : ∀ c ∈ decimalCfgs, ∀ (sp : Nat → Bool), SpaceOK sp →
     ∀ (l : Literal) (g : Nat), l.WellFormed → (∀ grp ∈ l.groups, grp ≠ []) → l.shape = .decimal →
       1 ≤ l.fracDigits.length →
-    ∀ (pre post : Str), PreOK RTV.Gen.reTables pre → PostOK RTV.Gen.reTables post →
-      QuietAt RTV.Gen.reTables c.1 (pre ++ l.text g c.2 ++ post) pre.length (l.text g c.2).length →
-      ∃ tag, extract RTV.Gen.reTables sp c.1 (pre ++ l.text g c.2 ++ post) =
-        [⟨pre.length, (l.text g c.2).length, strip sp (l.text g c.2), tag⟩] := by
+    ∀ (pre post : Str), PreOK RTV.Gen.reTables pre → PostOK RTV.Gen.reTables (folOf c.follow) post →
+      QuietAt RTV.Gen.reTables c.ext (pre ++ l.text g c.d ++ post) pre.length (l.text g c.d).length →
+      ∃ tag, extract RTV.Gen.reTables sp c.ext (pre ++ l.text g c.d ++ post) =
+        [⟨pre.length, (l.text g c.d).length, strip sp (l.text g c.d), tag⟩] := by
   intro c hc sp hsp l g hw hne hs hfl pre post hpre hpost hq
   obtain ⟨hshape, hidx, hfam, hd2, hmark⟩ := decimal_shapes c hc
   unfold decimalShapeOK at hshape
@@ -140,7 +140,7 @@ theorem decimal_literal_extracted : ∀ c ∈ decimalCfgs, ∀ (sp : Nat → Boo
   rw [heq] at hidx
   obtain ⟨⟨F, hfr⟩, hlen⟩ := shape_decimal hs
   obtain ⟨a, hgr⟩ := single_group hw hlen
-  have htext : l.text g c.2 = plainDecText c.2 l.neg a F := by
+  have htext : l.text g c.d = plainDecText c.d l.neg a F := by
     simp [Literal.text, Literal.fracDigits, hgr, hfr, Literal.joinGroups, plainDecText, plainIntText, signText]
   rw [htext] at hq ⊢
   have hd := hw.digits a (by simp [hgr])
@@ -149,11 +149,11 @@ theorem decimal_literal_extracted : ∀ c ∈ decimalCfgs, ∀ (sp : Nat → Boo
     exact List.length_pos_iff.2 this
   have hfd := hw.fdigits
   simp only [Literal.fracDigits, hfr, Option.getD_some] at hfd hfl
-  have hdd : RTV.Gen.reTables.digit c.2 = false := by
+  have hdd : RTV.Gen.reTables.digit c.d = false := by
     rcases hd2 with h | h <;> rw [h]
     · exact tables_ok.d44
     · exact tables_ok.d46
-  obtain ⟨tag, _, hres⟩ := extract_plainDec tables_ok sp hsp c.1.fam hfam (parts_ok _ h1 h2 h3 h4) (d := c.2)
+  obtain ⟨tag, _, hres⟩ := extract_plainDec tables_ok sp hsp c.ext.fam hfam (parts_ok _ h1 h2 h3 h4) (d := c.d)
     (by rcases hd2 with h | h <;> omega) hmark hdd hidx pre post hpre hpost l.neg a F ha hd hfl hfd _ _ hq
   exact ⟨tag, hres⟩
 
